@@ -51,6 +51,10 @@ def check_C01(tier):
     v = C.Verdict("C01")
     witnesses = [r for r in recs if r["t"] == "W"]
     noparse = [r for r in recs if r["t"] == "NOPARSE"]
+    spec_bad = [r for r in recs if r["t"] == "SPEC"]
+    if spec_bad:
+        raise C.ToolError("the specification is inconsistent with itself (%s) on %r, path %r" % (
+            spec_bad[0]["what"], L.expr_of(by_id[spec_bad[0]["id"]]), C.text(spec_bad[0]["path"])))
     nd = 0
     for r in recs:
         if r["t"] != "DISAGREE":
@@ -97,7 +101,7 @@ def check_C01(tier):
         "disagreeing_states": nd, "states_in_unspecified_gap": gap,
         "known_findings_hit": sorted(v.findings),
         "exhaustive": True,
-        "explanation": "TLC explored every reachable state of the product (strict residual automaton x liberal residual automaton x automaton of the compiled regex) for every built expression; invariants Lmust <= L(code) <= Lmay; each distinct state's access path was replayed through the real Program::is_match/matched",
+        "explanation": "TLC explored every reachable state of the product (strict residual automaton x liberal residual automaton x automaton of the compiled regex) for every built expression; invariants Lmust <= L(code) <= Lmay and (self-consistency of the specification) Lmust <= Lmay; each distinct state's access path was replayed through the real Program::is_match/matched",
     }, time.time() - t0, len(v.violations), TRUSTED_LANG)
     return rc
 
@@ -903,6 +907,12 @@ def expected_glob_yield(h, r, is_match):
     return exp
 
 
+def anchor_kind(h):
+    paths = W.node_paths(dict(h, walk_from=1))
+    pos = paths.get(h["_anchor_text"])
+    return W.node_by_id(h)[pos[-1]]["kind"] if pos else None
+
+
 def check_C02(tier):
     t0 = time.time()
     rnd = random.Random(C.SEED)
@@ -915,6 +925,12 @@ def check_C02(tier):
     # ComponentSound for real globs: product of the glob's DFA with its component DFAs (all paths)
     cs_stats, cs_n = component_sound("C02", tier, v)
     scenarios = W.glob_scenarios(tier, 1, rnd)
+    # family walks: members of the expression families over a, b walked over a three-level tree of a, b
+    fam = L.family_cases(tier, [("core", 5), ("mini", 6)] if tier == "quick" else [("core", 6), ("mini", 7)])
+    fam += L.seq_cases(tier, len(fam) + 1) + L.alg_cases(tier, len(fam) + 1)
+    texts = {C.text(c["e"]) for c in fam if set(c["e"]) <= set(C.cps("ab/?*{},<>:012[]"))}
+    family = W.family_walk_scenarios(tier, len(scenarios) + 1, rnd, texts)
+    scenarios += family
     pivots = W.prepare_glob_scenarios(scenarios)
     results, yielded, tstats, ntraces = W.run_and_validate("C02", scenarios, "c02", v, pivots=pivots)
     # oracle: real is_match on every path beneath the base
@@ -939,8 +955,9 @@ def check_C02(tier):
             if b["item"]["k"] == "entry":
                 f = b["item"]["facts"]
                 got.append(os.path.normpath(C.text(f["path"]["p"])))
-            elif b["item"]["k"] == "error" and h["_anchor_text"] not in W.node_paths(dict(h, walk_from=1)):
-                pass  # the literal prefix of the glob does not exist: the walk reports that it cannot read it
+            elif b["item"]["k"] == "error" and (h["_anchor_text"] not in W.node_paths(dict(h, walk_from=1))
+                                                or anchor_kind(h) != "dir"):
+                pass  # the literal prefix of the glob does not exist or names a file: the walk reports that it cannot read it
             elif b["item"]["k"] in ("panic", "runaway", "error"):
                 v.disagree({"t": "DISAGREE", "what": "walk_" + b["item"]["k"], "sid": h["sid"], "scenario": h}, "%s: %s" % (h["desc"], b["item"]))
         exp = expected_glob_yield(h, r, is_match)
@@ -970,7 +987,7 @@ def check_C02(tier):
         "traces_validated_against_impl": ntraces,
         "samples": samples,
         "evaluations": len(scenarios) + cs_n, "distinct_nontrivial": len({(h["tree"], C.text(h["glob"]), h["walk_from"], h.get("rooted")) for h in scenarios}),
-        "rule": "(i) model: every tree up to %d nodes x every pair of glob-layer tables satisfying ComponentSound x every sibling order: pruning never loses a match; (ii) ComponentSound discharged by TLC for %d built globs of the lexeme families (product of the glob's compiled automaton with its walk component automata, all paths); (iii) %d real glob walks (unprefixed, literal prefix, rooted at the absolute scratch path, ./.. prefixes, bases inside the tree, three spellings of the base) whose hook traces are validated against Walk.tla and whose yielded sets are compared with an independent traversal filtered by the real is_match; non-trivial = distinct (tree, glob, base, rooted)" % (n if tier == "quick" else 5, cs_n, len(scenarios)),
+        "rule": "(i) model: every tree up to %d nodes x every pair of glob-layer tables satisfying ComponentSound x every sibling order: pruning never loses a match; (ii) ComponentSound discharged by TLC for %d built globs of the lexeme families (product of the glob's compiled automaton with its walk component automata, all paths); (iii) %d real glob walks (a library: unprefixed, literal prefix, rooted at the absolute scratch path, ./.. prefixes, bases inside the tree, three spellings of the base, hook traces validated against Walk.tla; and family walks: a seeded sample of the built members of core, mini, GenSeq and GenAlg over a three-level tree of directories a, b) whose yielded sets are compared with an independent traversal filtered by the real is_match; non-trivial = distinct (tree, glob, base, rooted)" % (n if tier == "quick" else 5, cs_n, len(scenarios)),
         "oracle_comparisons": n_oracle, "traces_skipped_non_native_prefix": sum(1 for h in scenarios if h.get("skip_trace")),
         "known_findings_hit": sorted(v.findings), "exhaustive": True,
     }, time.time() - t0, len(v.violations), WALK_TRUST + ["the yielded set is compared with an independent traversal (Python) filtered with the real is_match (C01 covers is_match)"])
@@ -1318,10 +1335,23 @@ def check_C15(tier):
                     if g is not None:
                         h["glob"] = C.cps(g)
                     scenarios.append(h)
+    # walks that start at something other than the top directory: a file, a sub-directory, and (links read as
+    # targets) links to a file / a directory / an ancestor and a dangling link
+    nodes, index = W.tree(W.TREES["links"])
+    for start in ("root/a/f", "root/lf", "root/a/tob", "root/a/up", "root/dangling", "root/b"):
+        for mn, mx in ((-1, -1), (1, -1), (-1, 0), (-1, 1)):
+            for follow in (False, True):
+                # a link given as the root of a walk that reads links as files: walkdir follows it, the
+                # documentation of LinkBehavior::ReadFile does not say (unspecified, not exercised)
+                if not follow and start not in ("root/a/f", "root/b"):
+                    continue
+                scenarios.append({"sid": len(scenarios) + 1, "nodes": nodes, "follow": follow, "min": mn, "max": mx, "rooted": False,
+                                  "walk_from": index[start], "base": "abs", "layers": [], "tree": "links", "origin": "library", "_base_text": start,
+                                  "desc": "path walk from %s in tree links, depth %s..%s, links read as %s" % (start, mn if mn > 0 else 0, mx if mx >= 0 else "inf", "targets" if follow else "files")})
     pivots = W.prepare_glob_scenarios(scenarios)
     for h in scenarios:
         if h.get("glob") is None:
-            h["_base_text"] = "root"
+            h.setdefault("_base_text", "root")
         # a maximum below the length of the prefix excludes every reachable depth: nothing to validate as a trace
         if h.get("glob") is not None and h["max"] >= 0 and h["max"] < pivots.get(h["sid"], 0):
             h["skip_trace"] = True
